@@ -38,13 +38,25 @@ Theorem chain_sound_refuted : ~ chain_sound_statement verify_dnssec.
 Proof. exact chain_sound_refuted_lemma. Qed.
 Print Assumptions chain_sound_refuted.
 
-(* ... and proved for the repaired validator (props/C01/fix.patch): the DNSKEY RRset must verify under a
-   DS-matched key; then every key used is the zone's own and every validated RRset was signed by the zone *)
+(* ... and proved for the repaired validator (props/C01/fix.patch: the signer's DNSKEY answer must verify
+   under a DS-matched key).  For the DNSKEY answer itself: every key of the accepted RRset is the zone's own *)
 Theorem chain_sound_fixed_link : forall (honest : N -> Prop) (zone_signed : signed -> Prop) E signer resp parentDS,
+  root_own signer resp = false -> own_query signer resp = true ->
+  (forall d k, In d parentDS -> ds_binds d k -> honest (k_mat k)) ->
+  unforgeable honest zone_signed (m_ans resp) -> publishes_own_keys honest zone_signed (m_ans resp) ->
+  verify_dnssec_fixed E signer resp parentDS = (true, None) ->
+  forall k, In k (keys_of_msg signer resp) -> honest (k_mat k).
+Proof. exact keys_fixed_honest. Qed.
+Print Assumptions chain_sound_fixed_link.
+
+(* ... and for any response: accept ⇒ every validated RRset was signed by the zone (keys fetched through
+   a sub-query are the store's, which the theorem above keeps authentic) *)
+Theorem verify_dnssec_fixed_sound : forall (honest : N -> Prop) (zone_signed : signed -> Prop) E signer resp parentDS,
   root_own signer resp = false ->
   (forall d k, In d parentDS -> ds_binds d k -> honest (k_mat k)) ->
-  let km := if (m_qtype resp =? T_DNSKEY) && name_eqb (m_qname resp) signer then LMsg resp else e_key E signer in
-  (forall m, km = LMsg m -> unforgeable honest zone_signed (m_ans m) /\ publishes_own_keys honest zone_signed (m_ans m)) ->
+  (if own_query signer resp
+   then unforgeable honest zone_signed (m_ans resp) /\ publishes_own_keys honest zone_signed (m_ans resp)
+   else forall m, e_key E signer = LMsg m -> forall k, In k (keys_of_msg signer m) -> honest (k_mat k)) ->
   unforgeable honest zone_signed (m_ans resp ++ m_ns resp) ->
   verify_dnssec_fixed E signer resp parentDS = (true, None) ->
   let dn := dnames_of signer (m_ans resp) (m_ns resp) in
@@ -54,21 +66,22 @@ Theorem chain_sound_fixed_link : forall (honest : N -> Prop) (zone_signed : sign
   (forall r, In r (m_ns resp) -> passes signer dn true r = true ->
      exists set, vouched_set zone_signed (e_now E) signer (m_ans resp) (m_ns resp) dn r set).
 Proof. exact verify_dnssec_fixed_sound_lemma. Qed.
-Print Assumptions chain_sound_fixed_link.
+Print Assumptions verify_dnssec_fixed_sound.
 
 Theorem fixed_rejects_the_witness : verify_dnssec_fixed E0 zn forged_keys ds_parent = (false, Some EMissingDNSKEY).
 Proof. exact fixed_rejects_witness. Qed.
 Print Assumptions fixed_rejects_the_witness.
 
-(* induction on the referral depth (repaired validator): from an authentic DS set at the top, every DS
-   set reached through validated DS responses is authentic for its zone — any depth, any key counts *)
+(* induction on the referral depth (repaired validator): starting from honest keys at the top, each hop
+   validates the child's DS answer with the parent's keys and the child's DNSKEY answer against that DS set;
+   the keys reached at any depth are that zone's own — any depth, any key counts, any key tags *)
 Theorem chain_sound_fixed : forall (honest : name -> N -> Prop) (zsigned : name -> signed -> Prop) E,
   (forall z l, unforgeable (honest z) (zsigned z) l) ->
   (forall z l, publishes_own_keys (honest z) (zsigned z) l) ->
   (forall z c a lb o e i t sg ow cl rds, zsigned z (Signed c a lb o e i t sg ow cl rds) -> c = T_DS ->
       forall d k, In (r_id d) rds -> r_type d = T_DS -> ds_binds d k -> honest (r_owner d) (k_mat k)) ->
-  forall hops z ds, ds_authentic honest z ds -> chain_ok E z ds hops ->
-  let '(c, dsc) := last_link z ds hops in ds_authentic honest c dsc.
+  forall hops z keys, keys_honest honest z keys -> chain_ok E z keys hops ->
+  let '(c, kc) := last_keys z keys hops in keys_honest honest c kc.
 Proof. exact chain_sound_fixed_lemma. Qed.
 Print Assumptions chain_sound_fixed.
 
